@@ -379,7 +379,7 @@ func EnfPlanFromSeed(seed int64, k int) EnfPlan {
 			}
 		}
 	}
-	p.Hold = r.Intn(4) != 0
+	p.Hold = r.Intn(4) != 0 && p.Kind != kindBatch // (the others only come in once the batch liar is banned)
 	if p.has(clBadBlock) {
 		p.GetBlocks = len(p.Peers) + 2
 	}
